@@ -76,8 +76,27 @@ func loadTrieReused(enc encode.Encoder, stream []byte, oldVals interface{}) (st 
 		_ = st.Stat()
 		st.Marshal()
 		st.Get("old")
+		st.GetID("oldest")
+		st.RangeGet("olden")
 		st.Search("older")
 		st.ScanFrom("", true, oldVals != nil, func(k, v []byte) bool { return true })
+		nxt := st.NewIter("old", false, oldVals != nil)
+		nxt()
+		if oldVals != nil {
+			// the typed getter that matches the encoder, on keys that are found
+			for _, k := range []string{"old", "oldest", "absent"} {
+				switch enc.(type) {
+				case encode.I8:
+					st.GetI8(k)
+				case encode.I16:
+					st.GetI16(k)
+				case encode.I32:
+					st.GetI32(k)
+				case encode.I64:
+					st.GetI64(k)
+				}
+			}
+		}
 		err = st.Unmarshal(stream)
 	})
 	return
